@@ -155,4 +155,71 @@ theorem adjust_identity (cs : List (Cap α)) (h : ∀ c ∈ cs, 0 ≤ c.start) :
 /-- corner: everything dropped -/
 example : adjust (1/2) (-10) [⟨1, 2, [7]⟩, (⟨3, 4, [9]⟩ : Cap Nat)] = [] := by decide +kernel
 example : adjust 2 (-3) [⟨1, 2, [7]⟩, (⟨3, 4, [9]⟩ : Cap Nat)] = [⟨3, 5, [9]⟩] := by decide +kernel
+/-! ### merge: conservation (nothing lost, nothing invented) -/
+
+/-- **C19 (no concurrent captions).** a list in which no two neighbours share start and end is returned as it is -/
+theorem merge_no_concurrent (brk : α) (cs : List (Cap α)) (wf : WF cs) (h : AdjDistinct cs) :
+    mergeConcurrent brk cs = cs := by
+  rw [merge_runs brk cs wf, runs_of_adjDistinct cs h, List.map_map]
+  conv => rhs; rw [← List.map_id cs]
+  exact List.map_congr_left (fun c _ => specCap_single brk c)
+
+theorem joinBrk_length (brk : α) : ∀ (l : List (List α)), l ≠ [] →
+    (joinBrk brk l).length + 1 = (l.map (·.length)).sum + l.length
+  | [], h => absurd rfl h
+  | [x], _ => by simp [joinBrk]
+  | x :: y :: t, _ => by
+    have ih := joinBrk_length brk (y :: t) (by simp)
+    simp only [joinBrk, List.length_append, List.length_cons, List.map_cons, List.sum_cons] at ih ⊢
+    omega
+
+/-- a merged caption holds the nodes of its run plus exactly one break between consecutive captions -/
+theorem specCap_node_count (brk : α) (r : Cap α × List (Cap α)) :
+    (specCap brk r).nodes.length = ((r.1 :: r.2).map (·.nodes.length)).sum + r.2.length := by
+  have := joinBrk_length brk ((r.1 :: r.2).map (·.nodes)) (by simp)
+  simp only [specCap]
+  simp only [List.map_cons, List.sum_cons, List.length_cons, List.map_map, Function.comp_def, List.length_map] at this ⊢
+  omega
+
+/-- **C19 (nothing lost, nothing invented).** the merged list holds all nodes of the input plus one break for every caption that was joined to its predecessor -/
+theorem merge_node_count (brk : α) (cs : List (Cap α)) (wf : WF cs) :
+    ((mergeConcurrent brk cs).map (·.nodes.length)).sum + (mergeConcurrent brk cs).length
+      = (cs.map (·.nodes.length)).sum + cs.length := by
+  rw [merge_runs brk cs wf]
+  conv => rhs; rw [← runs_flatten cs]
+  generalize runs cs = rs
+  induction rs with
+  | nil => simp
+  | cons r rs ih =>
+    simp only [List.map_cons, List.sum_cons, List.length_cons, List.flatMap_cons, List.map_append, List.sum_append, List.length_append] at ih ⊢
+    rw [specCap_node_count]
+    simp only [List.map_cons, List.sum_cons] at ih ⊢
+    omega
+
+/-- joined node lists contain every node list of the run as a contiguous block -/
+theorem joinBrk_infix (brk : α) : ∀ (l : List (List α)) (x : List α), x ∈ l → x <:+: joinBrk brk l
+  | [y], x, h => by simp at h; subst h; simp [joinBrk]
+  | y :: z :: t, x, h => by
+    simp only [joinBrk]
+    rcases List.mem_cons.mp h with rfl | h
+    · exact (List.prefix_append _ _).isInfix
+    · have := joinBrk_infix brk (z :: t) x h
+      exact this.trans ((List.suffix_cons _ _).isInfix.trans (List.suffix_append _ _).isInfix)
+
+/-- **C19 (every caption's nodes survive intact).** the nodes of every input caption occur, contiguous and in order, in some merged caption with the same start and end -/
+theorem merge_keeps_each (brk : α) (cs : List (Cap α)) (wf : WF cs) (c : Cap α) (hc : c ∈ cs) :
+    ∃ m ∈ mergeConcurrent brk cs, m.span = c.span ∧ c.nodes <:+: m.nodes := by
+  rw [merge_runs brk cs wf]
+  have hc' := hc
+  rw [← runs_flatten cs, List.mem_flatMap] at hc'
+  obtain ⟨r, hr, hcr⟩ := hc'
+  refine ⟨specCap brk r, List.mem_map_of_mem hr, ?_, ?_⟩
+  · rw [specCap_span]
+    rcases List.mem_cons.mp hcr with rfl | h
+    · rfl
+    · exact (runs_uniform cs r hr c h).symm
+  · exact joinBrk_infix brk _ _ (List.mem_map_of_mem hcr)
+
+/-- non-vacuity of the count: 3 captions, 4 nodes -> 2 captions, 5 nodes (one break) -/
+example : ((mergeConcurrent 0 [⟨1, 2, [7]⟩, ⟨1, 2, [8, 6]⟩, (⟨3, 4, [9]⟩ : Cap Nat)]).map (·.nodes.length)).sum = 5 := by decide
 end PcVerif.Props.C19
